@@ -234,4 +234,63 @@ theorem readTag_array_exact (parent : Tag) (st : St) (P A : Name) (ws0 ws1 wsE w
   simp only [hrs2, Bool.false_eq_true, if_false]
   rfl
 
+
+/-- what readTagHeader does once the start of the tag is found, when white space follows the name: attributes are announced,
+the white space is left for the attribute reader -/
+theorem readTagHeader_after_ws (parent : Tag) (st : St) (t : TagT) (buf : Bytes) (i : Nat) (NS name X R : Bytes) (w : UInt8)
+    (hf : findTagStart 16 128 0 st = (.ok (t, buf, i), st))
+    (hb : buf = NS ++ 58 :: (name ++ w :: X)) (hw : isWs w = true)
+    (hns : ∀ x ∈ NS, (x == 58) = false) (hname : ∀ x ∈ name, isTerm x = false)
+    (hdrop : st.rest.drop (NS.length + 1 + name.length + i) = R) :
+    readTagHeader parent st = (.ok { t := t, parent := parent.self, self := identify NS name }, { st with a := true, rest := R }) := by
+  unfold readTagHeader
+  rw [bindOk _ _ _ _ _ hf]
+  have hterm : isTerm w = true := by simp [isTerm, hw]
+  simp only [hb, parseTagName_exact NS name X w hns hname hterm]
+  have hc : (NS ++ 58 :: (name ++ w :: X) : Bytes)[NS.length + 1 + name.length]? = some w := by
+    have e : (NS ++ 58 :: (name ++ w :: X) : Bytes) = (NS ++ [58] ++ name) ++ w :: X := by simp
+    have hl : (NS ++ [58] ++ name : Bytes).length = NS.length + 1 + name.length := by simp; omega
+    rw [e, ← hl]; simp
+  rw [bindOk _ _ _ _ _ (at_ok _ _ w st hc)]
+  have hw62 : (w == 62) = false := by
+    cases h : (w == 62)
+    · rfl
+    · have : w = 62 := by simpa using h
+      rw [this] at hw; revert hw; decide
+  simp only [hw62, Bool.false_eq_true, if_false, hw, if_true]
+  show (setA true >>= fun _ => discard (NS.length + 1 + name.length + i) >>= fun _ => pure _) st = _
+  simp only [setA, discard, bind, pure, hdrop]
+
+/-- **Start tag with attributes.** `<ns:name` followed by white space: the start tag of `identify ns name`, attributes announced,
+the stream left at the white space -/
+theorem readTagHeader_startattr_exact (parent : Tag) (st : St) (ws : Bytes) (n0 : UInt8) (ns name R : Bytes) (w : UInt8)
+    (hr : st.rest = ws ++ 60 :: ((n0 :: ns) ++ 58 :: (name ++ w :: R))) (hw : isWs w = true)
+    (hws : ∀ x ∈ ws, (x == 60) = false) (hwin : ws.length + 128 ≤ W)
+    (h0 : n0 ≠ 47 ∧ n0 ≠ 63) (hns : ∀ x ∈ n0 :: ns, (x == 58) = false) (hname : ∀ x ∈ name, isTerm x = false)
+    (hfit : ns.length + name.length + 4 ≤ 128) (h4 : 4 < st.rest.length) :
+    readTagHeader parent st = (.ok { t := .start, parent := parent.self, self := identify (n0 :: ns) name }, { st with a := true, rest := w :: R }) := by
+  have hr' : st.rest = ws ++ 60 :: n0 :: (ns ++ 58 :: (name ++ w :: R)) := by rw [hr]; simp
+  obtain ⟨m, hm, hf⟩ := findTagStart_exact ws (ns ++ 58 :: (name ++ w :: R)) n0 hws hwin 15 128 0 st hr' h4 (Nat.zero_le _) (by omega) (by unfold W at hwin; omega)
+  have hc1 : (n0 == 47) = false := by simp [h0.1]
+  have hc2 : (n0 == 63) = false := by simp [h0.2]
+  unfold tagStartResult at hf
+  rw [hc1, hc2] at hf
+  simp only [Bool.false_eq_true, if_false] at hf
+  have hL : st.rest.length = ws.length + 1 + ((n0 :: ns) ++ 58 :: (name ++ w :: R)).length := by rw [hr]; simp; omega
+  have hAl : ((n0 :: ns) ++ 58 :: (name ++ [w]) : Bytes).length = ns.length + name.length + 3 := by simp; omega
+  have hbuf : (st.rest.take m).drop (ws.length + 1) = (n0 :: ns) ++ 58 :: (name ++ w :: (R.take (m - (ws.length + 1) - (ns.length + name.length + 3)))) := by
+    have e : st.rest = (ws ++ [60]) ++ ((n0 :: ns) ++ 58 :: (name ++ [w])) ++ R := by rw [hr]; simp
+    have hmm : ws.length + 1 + (ns.length + name.length + 3) ≤ m := by
+      have : ws.length + 1 + (ns.length + name.length + 3) ≤ st.rest.length := by rw [hL]; simp; omega
+      omega
+    rw [e, take_drop_prefix _ R m (ws.length + 1) (by omega) (by rw [hAl]; omega) (ws ++ [60]) (by simp), hAl]
+    simp
+  rw [hbuf] at hf
+  refine readTagHeader_after_ws parent st .start _ (ws.length + 1) (n0 :: ns) name _ (w :: R) w hf rfl hw hns hname ?_
+  rw [hr]
+  have e : (ws ++ 60 :: ((n0 :: ns) ++ 58 :: (name ++ w :: R)) : Bytes) = ((ws ++ [60]) ++ ((n0 :: ns) ++ 58 :: name)) ++ w :: R := by simp
+  have hl : ((ws ++ [60]) ++ ((n0 :: ns) ++ 58 :: name) : Bytes).length = (n0 :: ns).length + 1 + name.length + (ws.length + 1) := by
+    simp; omega
+  rw [e, ← hl, List.drop_left]
+
 end Imeta.Xmp
